@@ -65,7 +65,9 @@ func c13Shapes(thorough bool) (all []logShape, chainAlphabet []logShape) {
 	ten30p7, _ := new(big.Int).SetString("1000000000000000000000000000007", 10)
 	amounts := map[string]*big.Int{"0": big.NewInt(0), "1": big.NewInt(1), "2p64": new(big.Int).Lsh(big.NewInt(1), 64), "2p200": new(big.Int).Lsh(big.NewInt(1), 200),
 		"2p64+1": new(big.Int).Add(new(big.Int).Lsh(big.NewInt(1), 64), big.NewInt(1)), "2p200-1": new(big.Int).Sub(new(big.Int).Lsh(big.NewInt(1), 200), big.NewInt(1)), "1e30+7": ten30p7}
-	metas := map[string]metadata.Metadata{"nil": nil, "empty": {}, "ascii": {"k": "v", "a": "b"}, "unicode": {"clé": "välue ✓   \"q\" <&>"}, "emptykey": {"": ""}}
+	metas := map[string]metadata.Metadata{"nil": nil, "empty": {}, "ascii": {"k": "v", "a": "b"}, "unicode": {"clé": "välue ✓   \"q\" <&>"}, "emptykey": {"": ""},
+		// U+0000: fine in JSON, refused by jsonb (the store then refuses the entry; what it accepts must come back unchanged)
+		"nul": {"k": "v\x00w", "n\x00": "x"}}
 	// "rawbytes": not valid UTF-8 - reachable through an Idempotency-Key header or a percent-encoded URL segment
 	keys := map[string]string{"none": "", "ascii": "key-1", "unicode": "ключ✓", "long": strings.Repeat("k", 255), "rawbytes": "a\xffb",
 		// longer than the column (varchar(255)), with a multi-byte character across byte 255 and across character 255
